@@ -85,16 +85,28 @@ class FakeConn:
     def _client_closed(self):
         self.client_closed = True
         self.log.append(('c-close', b''))
+        # a real transport reports connection_lost to the protocol on the next loop
+        # iteration, which ends a pending read with EOF
+        try:
+            asyncio.get_event_loop().call_soon(self._feed_eof_once)
+        except RuntimeError:
+            self._feed_eof_once()
         if self._recv_waiter and not self._recv_waiter.done():
             self._recv_waiter.set_result(None)
         cb = getattr(self.handler, 'on_close', None)
         if cb:
             cb(self)
 
+    def _feed_eof_once(self):
+        if not self.reader.at_eof() and not getattr(self.reader, '_eof', False):
+            self.reader.feed_eof()
+
     # -- server side helpers
     def send(self, data):
         """Deliver one segment to the client."""
         if self.server_closed or not data:
+            return
+        if getattr(self.reader, '_eof', False):
             return
         self.sent += data
         self.log.append(('s>', bytes(data)))
@@ -104,7 +116,7 @@ class FakeConn:
         if not self.server_closed:
             self.server_closed = True
             self.log.append(('s-close', b''))
-            self.reader.feed_eof()
+            self._feed_eof_once()
 
     async def send_segments(self, segments, eof=False, yields=1):
         """Deliver segments one by one, letting the client run in between."""
